@@ -17,6 +17,7 @@ RULE = (
     "method in {pickle protocol 0..5, copy.deepcopy}). Enumerated: every shape <= 5 (quick) / <= 6 (thorough) nodes x every entry node x every "
     "method x 8 class schemes; generated: trees <= 30 nodes with random class mixes, targets and attributes. Non-trivial = >= 4 nodes and "
     "(entry is not the root or the tree contains a symlink). Enumerated distinct by construction; generated hashed."
+    ' Also: trees rearranged by moves before copying; a LightNodeMixin class with a plain-string __slots__; an original node moved below the copy of its former parent.'
 )
 ASSUMPTIONS = [
     "protocols 0 and 1 are only used for classes without __slots__ (restriction of Python itself, as the statement says)",
